@@ -12,7 +12,7 @@ PYTHONPATH=$WT/src /venv/bin/python demo.py > $OUT/demo_with_change.log 2>&1; RC
 git apply -R $OUT/patch.diff
 PYTHONPATH=$WT/src /venv/bin/python demo.py > $OUT/demo_without_change.log 2>&1; RC_WITHOUT=$?
 git apply $OUT/patch.diff
-BASE=$(/venv/bin/python /tmp/baseline_check.py $WT 2>&1 | tail -1)
+BASE=$(/venv/bin/python /verif/tools/baseline.py $WT 2>&1 | tail -1)
 echo "demo with change: exit $RC_WITH; without: exit $RC_WITHOUT; baseline: $BASE"
 cd /verif
 RES=""
